@@ -516,6 +516,97 @@ func checkC18(c *Ctx) {
 	r.Counts["register_reads"] = nCons
 	r.Floor("REG-CONSUME", 25)
 
+	// ---- REG-ALIAS: GetMultiRet hands out the register's own storage; it must be copied out before the next write
+	nAlias := 0
+	for _, f := range ra.funcs {
+		allInstrs(f, func(in ssa.Instruction) {
+			call, ok := in.(*ssa.Call)
+			if !ok || call.Call.StaticCallee() != ra.regMeth["GetMultiRet"] {
+				return
+			}
+			nAlias++
+			// values sharing the register's backing array
+			taint := map[ssa.Value]bool{}
+			var add func(v ssa.Value)
+			add = func(v ssa.Value) {
+				if v == nil || taint[v] {
+					return
+				}
+				taint[v] = true
+				for _, ref := range *v.Referrers() {
+					switch x := ref.(type) {
+					case *ssa.Extract:
+						if x.Index == 0 {
+							add(x)
+						}
+					case *ssa.Phi:
+						add(x)
+					case *ssa.Slice:
+						add(x)
+					case *ssa.ChangeType:
+						add(x)
+					case *ssa.Call:
+						if builtinName(x) == "append" && x.Call.Args[0] == v {
+							add(x)
+						}
+					case *ssa.Store:
+						if x.Val == v {
+							if al, ok := x.Addr.(*ssa.Alloc); ok {
+								for _, r2 := range *al.Referrers() {
+									if ld, ok := r2.(*ssa.UnOp); ok && ld.Op == token.MUL {
+										add(ld)
+									}
+								}
+							}
+						}
+					}
+				}
+			}
+			add(call)
+			// a register write W between the read and a later use of a tainted value
+			bad := ""
+			allInstrs(f, func(w ssa.Instruction) {
+				if bad != "" {
+					return
+				}
+				wc, ok := w.(ssa.CallInstruction)
+				if !ok || w == ssa.Instruction(call) {
+					return
+				}
+				isWrite := isTaskDynCall(wc)
+				if g := wc.Common().StaticCallee(); g != nil {
+					if ra.evalSet[g] || g == ra.regMeth["ReturnAppend"] || g == ra.regMeth["Reset"] || (len(ra.summ[g]) > 0 && !(len(ra.summ[g]) == 1 && ra.summ[g][kU])) {
+						isWrite = true
+					}
+				}
+				if !isWrite || !reachableFrom(call, w) {
+					return
+				}
+				for tv := range taint {
+					if tv == ssa.Value(call) {
+						continue
+					}
+					for _, ref := range *tv.Referrers() {
+						if _, isPhi := ref.(*ssa.Phi); isPhi {
+							continue // the phi itself is tainted and checked through its own uses
+						}
+						def, _ := tv.(ssa.Instruction)
+						if _, isPhiDef := tv.(*ssa.Phi); isPhiDef {
+							def = nil // loop-carried: a new iteration does not re-create it
+						}
+						if ref != w && reachAvoid(w, ref, func(k ssa.Instruction) bool { return k == ssa.Instruction(call) || (def != nil && k == def) }) {
+							bad = fmt.Sprintf("%s is still used at %s after the register may have been rewritten at %s", path(tv), t.Pos(ref.Pos()), t.Pos(w.Pos()))
+							return
+						}
+					}
+				}
+			})
+			r.Ob("REG-ALIAS", fmt.Sprintf("%s copies the values of GetMultiRet #%d out before the register is written again", relName(f), ordinalCall(f, call)), t.Pos(call.Pos()), bad == "",
+				"GetMultiRet returns the register's own slice; Reset keeps its backing array, so the next ReturnAppend overwrites it. "+bad)
+		})
+	}
+	r.FloorN("GetMultiRet call sites", nAlias, 1)
+
 	// ---- SIBLING-TABLE
 	ot1 := extractOpTables(t, pRT)
 	ot2 := extractOpTables(t, pRT2)
